@@ -40,7 +40,12 @@ def build(docs, source, workdir, tag):
         os.makedirs(d, exist_ok=True)
         paths = []
         for n, doc in enumerate(docs):
-            p = os.path.join(d, f'{n:03d}.mos.xml')
+            # half of the time every file has the same basename, in a directory of its own
+            if tag.endswith('1') or tag.endswith('3'):
+                os.makedirs(os.path.join(d, f'dir{n:03d}'), exist_ok=True)
+                p = os.path.join(d, f'dir{n:03d}', 'message.mos.xml')
+            else:
+                p = os.path.join(d, f'{n:03d}.mos.xml')
             with open(p, 'w', encoding='utf-8') as f:
                 f.write(doc)
             paths.append(p)
